@@ -197,8 +197,8 @@ theorem C06_run_survives_runX_partial (hs : NoSortAbort) (w : W) (qs : List Pass
 
 /- the run of the example above as a run of `runX` (no device in `Ex.world`, so no regex answer is ever asked for; runs in which
    an answer fed before a later pass matters are in `Props/C02` and `Props/C11`) -/
-example : (runX Ex.world [⟨{ now := 0, acc := 1, con := 0, soe := 0, envs := [] }, []⟩,
-    ⟨{ now := 1, acc := 0, con := 0, soe := 0, envs := [{ fd := 1000, rev := 1, rk := 0, data := bstr "telemetry\n", cap := 4096 }] }, []⟩]).clients.map (·.toBuf) =
+example : (runX Ex.world [⟨{ now := 0, acc := 1, con := [0], soe := [0], envs := [] }, []⟩,
+    ⟨{ now := 1, acc := 0, con := [0], soe := [0], envs := [{ fd := 1000, rev := 1, rk := 0, data := bstr "telemetry\n", cap := 4096 }] }, []⟩]).clients.map (·.toBuf) =
     [render [.line 1 (bstr "2.4.4"), .prompt, .line 104 (bstr "Telemetry ON"), .prompt]] := by
   decide +kernel
 
